@@ -253,3 +253,30 @@ package pkg
 //@   ensures forall k string :: k != originAst ==> has(tab.Records, k) == old(has(tab.Records, k)) && tab.Records[k] == old(tab.Records[k])
 //@   ensures forall r *CloneRecord :: old(allocated(r)) ==> r.CloneInstance == old(r.CloneInstance) && r.OriginInstance == old(r.OriginInstance)
 //@   ensures forall p Ref :: old(allocated(p)) ==> allocated(p)
+
+// ---- error reporter (C17, C20): errors are only ever added; HasError is exactly "something was added" ----
+//@ func (c *GruleErrorReporter) AddError(err) ()
+//@   serves C17 C20 C07
+//@   requires c != nil
+//@   nopanic
+//@   modifies GruleErrorReporter.Errors
+//@   ensures added: len(c.Errors) == old(len(c.Errors)) + 1
+//@   ensures others: forall r *GruleErrorReporter :: r != c ==> r.Errors == old(r.Errors)
+//@ func (c *GruleErrorReporter) SyntaxError(recognizer, offendingSymbol, line, column, msg, e) ()
+//@   serves C17 C20
+//@   requires c != nil
+//@   nopanic
+//@   modifies GruleErrorReporter.Errors
+//@   ensures added: len(c.Errors) == old(len(c.Errors)) + 1
+//@   ensures others: forall r *GruleErrorReporter :: r != c ==> r.Errors == old(r.Errors)
+//@ func (c *GruleErrorReporter) HasError() (r)
+//@   serves C17 C20
+//@   requires c != nil
+//@   nopanic
+//@   modifies
+//@   ensures exact: r == (len(c.Errors) > 0)
+//@ func (c *GruleErrorReporter) Error() (s)
+//@   serves C17 C20
+//@   requires c != nil
+//@   nopanic
+//@   modifies
